@@ -13,6 +13,17 @@ def main():
     a = ap.parse_args()
     seed = int(os.environ.get("VERIF_SEED", "1") or 1)
     mod = importlib.import_module("props." + a.prop.lower())
+    if a.replay:
+        # A replay file names the violation (key) and the tier / seed of the run that found it.  C18 re-executes the
+        # recorded program and schedule itself; for the other properties the case is one row of a deterministic
+        # enumeration, so the replay re-runs that enumeration and reports only this key.
+        import json
+        rf = json.load(open(a.replay))
+        a.tier = rf.get("tier", a.tier)
+        seed = int(rf.get("seed", seed))
+        if a.prop != "C18":
+            lib.REPLAY_KEY = rf["key"]
+    lib.RUN_INFO.update(tier=a.tier, seed=seed)
     t0 = time.time()
     try:
         code = mod.run(a.tier, seed, a.replay)
